@@ -210,7 +210,7 @@ func cmdCheck(args []string) {
 	g := mustLoad()
 	keys := g.funcsForProp(*prop)
 	tagged := len(keys)
-	timeout := 60
+	timeout := 90
 	if *tier == "thorough" {
 		timeout = 200
 		keys = g.calleeClosure(keys)
